@@ -20,7 +20,7 @@ SPEC = {
     "assumptions": ["molecules <= 40 atoms"],
     "monitors_required": ["c11_norm_compare", "c11_idempotence", "respeller_validated"],
     "required_obs": {"quick": ["respell/renumber-within-blocks", "respell/tuple-permutation", "respell/endpoint-swap", "respell/tuple-repetition", "respell/block-permutation",
-                               "respell/block-split", "respell/key-order-swap", "cov_hand_style_base", "cov_canonical_base"]},
+                               "respell/block-split", "respell/key-order-swap", "cov_hand_style_base", "cov_canonical_base", "cov_bondless_labelled_base"]},
     "watchdog_s": {"quick": 900, "thorough": 3600},
 }
 PLAN = {"quick": {"canonical": 1800, "hand": 1800, "k": 3}, "thorough": {"canonical": 18000, "hand": 18000, "k": 6}}
@@ -40,6 +40,10 @@ def ref_colored(s):
 
 
 def run_case(ctx, case):
+    return common.case_guard(ctx, case, _run_case)
+
+
+def _run_case(ctx, case):
     rng = random.Random(case["vseed"])
     base = case["string"]
     k = PLAN[ctx.tier]["k"]
@@ -89,6 +93,22 @@ def run(ctx):
             continue
         s = se.serialize_molecule(c.canonicalize_molecule(bridge.graph_direct(mol, tag=False)))
         run_case(ctx, {"string": s, "origin": "pipeline", "vseed": f"{ctx.seed}/{ctx.shard}/c{k}"})
+    # bond-less molecules (empty tuple section) with several atoms of one element that differ in isotope/radical labels
+    for k in range(common.share(ctx, plan["hand"] // 6)):
+        items = GS.random_formula(rng, max_symbols=3, max_atoms=12)
+        n = sum(c for _, c in items)
+        blocks, used = [], set()
+        for _ in range(rng.randint(1, 4)):
+            i = rng.randint(1, n)
+            if i in used:
+                continue
+            used.add(i)
+            props = rng.choice([[("mass", rng.choice([2, 3, 13, 35, 37]))], [("rad", rng.choice([1, 2, 3]))], [("mass", 13), ("rad", 2)]])
+            blocks.append((i, props))
+        tuples = [] if rng.random() < 0.8 or n < 2 else [(1, 2)]
+        run_case(ctx, {"string": GS.emit(items, tuples, blocks), "origin": "hand", "bondless": not tuples, "vseed": f"{ctx.seed}/{ctx.shard}/b{k}"})
+        if not tuples:
+            ctx.count("cov_bondless_labelled_base")
     for k in range(common.share(ctx, plan["hand"])):
         s = GS.random_sentence(rng, 30)
         if s.startswith("/"):
